@@ -526,7 +526,72 @@ def run(ctx):
               necessary="a question row whose type cell is empty that is skipped instead of rejected silently vanishes from the form")
     row_prologue_obligations(ctx, r7, "C17.R7")
     rules.append(r7)
+    rules.append(_survey_sheet_settings_rule(ctx))
     return rules
+
+
+def _survey_sheet_settings_rule(ctx):
+    """A setting given as a survey-sheet row (type form_id / form_title / ... with the value in the name cell): the value
+    the row loop stores for a BLANK name cell must be one Survey.validate refuses as an empty id.  The producer (the
+    settings branch of the row loop, evaluated as a dependency slice) and the consumer (Survey.validate, evaluated) are
+    two sites in two files that must agree on the sentinel."""
+    from ..rowloop import dependency_slice, row_loop_of
+    from ..interp import Obj, _Continue
+    r = Rule("C17", "C17.R8", "a blank form id given on the survey sheet is refused (producer and validator agree on the empty value)", floor=3,
+             necessary="an empty id that the validator does not recognise becomes the XForm's id attribute")
+    repo = ctx.repo
+    w2j = ctx.func("pyxform.xls2json:workbook_to_json", "C17.R8")
+    loop = row_loop_of(w2j)
+    anchors = [n for n in ast.walk(loop) if isinstance(n, ast.Attribute) and n.attr == "settings_header"]
+    if not anchors:
+        r.note("the row loop no longer reads settings from survey-sheet rows; nothing to agree on")
+        r.floor = 0
+        return r
+    known = {"row": None, "row_number": 7, "question_type": None, "json_dict": None, "warnings": None, "settings": None}
+    from ..astutil import stmt_of
+    a_st = stmt_of(anchors[0])
+    tnames = {t.id for t in getattr(a_st, "targets", []) if isinstance(t, ast.Name)}
+    users = [x.test for x in ast.walk(loop) if isinstance(x, ast.If) and x is not a_st and tnames & {y.id for y in ast.walk(x.test) if isinstance(y, ast.Name)}]
+    stmts = dependency_slice(w2j, loop, [anchors[0], *users[:1]], lambda nm: nm in known)
+    sh = ctx.consts.get("pyxform.aliases", "settings_header", "C17.R8")
+    id_types = sorted(k for k, v in sh.items() if v == "id_string")
+    scls = repo.cls("pyxform.survey:Survey")
+    val = scls.methods["validate"]
+    n = 0
+    for qt in id_types:
+        for desc, row, want in (("blank name cell", {"type": qt}, "refused"), ("name cell given", {"type": qt, "name": "my_form"}, "accepted"), ("name cell `None` typed by the author", {"type": qt, "name": "None"}, None)):
+            jd = {"type": "survey", "name": "data", "children": []}
+            env = {"row": row, "row_number": 7, "question_type": qt, "json_dict": jd, "warnings": [], "settings": {}}
+            free = {x.id for st in stmts for x in ast.walk(st) if isinstance(x, ast.Name)}
+            env = {k: v for k, v in env.items() if k in free}
+            it = ctx.interp("C17.R8")
+            it.reset([])
+            try:
+                it.exec_block(stmts, env, w2j.module)
+            except _Continue:
+                pass
+            except Raised as e:
+                if "PyXFormError" in e.mro and want == "refused":
+                    r.ok(f"survey-sheet row `{qt}`[{desc}]", "refused by the row loop itself", w2j.loc(stmts[0]))
+                    n += 1
+                    continue
+                r.fail(f"survey-sheet row `{qt}`[{desc}]", f"the settings branch evaluates ({e.exc_name}{e.exc_args})", w2j.loc(stmts[0]))
+                continue
+            if want is None:
+                continue
+            stored = jd.get("id_string")
+            sv = Obj(scls, {"id_string": stored, "name": "data", "children": []}, name="survey")
+            itv = ctx.interp("C17.R8", hooks={"fnname:_validate_uniqueness_of_section_names": lambda i, a, k, n_: None, "call:super().validate": lambda i, a, k, n_: None})
+            itv.reset([])
+            try:
+                itv.call_function(val, [sv], {}, None, val.node)
+                got = "accepted"
+            except Raised as e:
+                got = "refused" if "PyXFormError" in e.mro else f"raises {e.exc_name}"
+            n += 1
+            r.check(got == want, f"survey-sheet row `{qt}`[{desc}]", f"the stored id {stored!r} is {want} by Survey.validate", val.loc(), why_fail=f"stored {stored!r}: {got}")
+    r.check(n >= 2, "survey-sheet settings rows", "the id-setting row types were evaluated", w2j.loc(stmts[0]))
+    return r
 
 
 def _in_try(node, names) -> bool:
